@@ -1,4 +1,5 @@
 import MV.Lemmas.PubSubFlow
+import MV.Props.C10
 /-!
 # C10, system level — mailboxes, release on restart / termination, two nodes
 
@@ -12,7 +13,7 @@ namespace MV.Props.C10
 open MV.Model.PubSub MV.Spec.PubSub MV.Lemmas.PubSub MV.Lemmas.PubSubSys MV.Lemmas.PubSubFlow
 
 /-- every handle an actor has recorded satisfies the side condition of `UnSubscribe` -/
-theorem C10_held_genuine {s : Sys} (h : Reachable s) (r : Ref) (sub : Subscription)
+theorem C10_held_genuine {self : Nat} {s : Sys} (h : Reachable self s) (r : Ref) (sub : Subscription)
     (hs : sub ∈ (s.actors r).held) : Genuine s sub := by
   have hi := inv_reachable h
   intro t y hy hid
@@ -22,7 +23,7 @@ theorem C10_held_genuine {s : Sys} (h : Reachable s) (r : Ref) (sub : Subscripti
 /-- **Every current subscription is accounted for**: it is recorded in its subscriber's
     `ctx.subscriptions` (and will be released when that actor restarts or terminates) or its
     cancellation is already in the subscription actor's mailbox. -/
-theorem C10_release_invariant {s : Sys} (h : Reachable s) (t : Topic) (x : Subscription)
+theorem C10_release_invariant {self : Nat} {s : Sys} (h : Reachable self s) (t : Topic) (x : Subscription)
     (hx : x ∈ s.sa.lookup t) :
     x ∈ (s.actors x.subscriber).held ∨ unsubEnvelope x ∈ s.saQ :=
   (inv_reachable h).rel t x hx
@@ -31,12 +32,12 @@ theorem C10_release_invariant {s : Sys} (h : Reachable s) (t : Topic) (x : Subsc
     cancellation of every subscription of `r` that the subscription actor still has is in its mailbox
     (behind everything enqueued earlier, before anything enqueued later — FIFO); by `C10_cancel` no
     publication handled after that cancellation is delivered for it. -/
-theorem C10_release_on_restart {s : Sys} (h : Reachable s) (r : Ref) :
+theorem C10_release_on_restart {self : Nat} {s : Sys} (h : Reachable self s) (r : Ref) :
     let s' := s.step (.restart r)
     (s.canAct r = true → (s'.actors r).held = []) ∧
     (s.canAct r = true → ∀ t x, x ∈ s'.sa.lookup t → x.subscriber = r → unsubEnvelope x ∈ s'.saQ) := by
   intro s'
-  have hr : Reachable s' := Reachable.step (.restart r) h trivial
+  have hr : Reachable self s' := Reachable.step (.restart r) h trivial
   have hheld : s.canAct r = true → (s'.actors r).held = [] := by
     intro hc
     show ((s.step (.restart r)).actors r).held = []
@@ -47,12 +48,12 @@ theorem C10_release_on_restart {s : Sys} (h : Reachable s) (r : Ref) :
   · exact h1
 
 /-- **Release on termination**, the same for `tryTerminated`. -/
-theorem C10_release_on_terminate {s : Sys} (h : Reachable s) (r : Ref) :
+theorem C10_release_on_terminate {self : Nat} {s : Sys} (h : Reachable self s) (r : Ref) :
     let s' := s.step (.terminate r)
     (s.canAct r = true → (s'.actors r).held = [] ∧ (s'.actors r).status = .terminated) ∧
     (s.canAct r = true → ∀ t x, x ∈ s'.sa.lookup t → x.subscriber = r → unsubEnvelope x ∈ s'.saQ) := by
   intro s'
-  have hr : Reachable s' := Reachable.step (.terminate r) h trivial
+  have hr : Reachable self s' := Reachable.step (.terminate r) h trivial
   have hheld : s.canAct r = true → (s'.actors r).held = [] ∧ (s'.actors r).status = .terminated := by
     intro hc
     show ((s.step (.terminate r)).actors r).held = [] ∧ ((s.step (.terminate r)).actors r).status = .terminated
@@ -64,7 +65,7 @@ theorem C10_release_on_terminate {s : Sys} (h : Reachable s) (r : Ref) :
 
 /-- **A terminated (or never spawned) actor is subscribed to nothing** once the subscription actor has
     emptied its mailbox: no later publication is addressed to it. -/
-theorem C10_release_on_restart_terminate {s : Sys} (h : Reachable s) (r : Ref)
+theorem C10_release_on_restart_terminate {self : Nat} {s : Sys} (h : Reachable self s) (r : Ref)
     (hdead : (s.actors r).status ≠ .alive) (hq : s.saQ = []) :
     ∀ t x, x ∈ s.sa.lookup t → x.subscriber ≠ r := by
   intro t x hx hsub
@@ -77,12 +78,12 @@ theorem C10_release_on_restart_terminate {s : Sys} (h : Reachable s) (r : Ref)
     every actor `r` and every (sender, payload), the number of copies `r` has handled or still has in
     its mailbox, plus the dead letters addressed to `r`, is the number of deliveries the subscription
     actor has addressed to `r` (which `C10_fanout_exact` / `C10_copies` determine). -/
-theorem C10_no_loss_no_dup {s : Sys} (h : Reachable s) (r : Ref) (d : Delivery) :
-    (arrived s r).count d + (lost s r).count d = (deliveriesTo r (allEffs s)).count d :=
+theorem C10_no_loss_no_dup {self : Nat} {s : Sys} (h : Reachable self s) (r : Ref) (d : Delivery) :
+    (arrived s r).count d + (lost s r).count d = (deliveriesTo r (allEffs self s)).count d :=
   (flow_reachable h).acct r d
 
 /-- the subscription actor's state is the machine of part 1 run on what it has processed -/
-theorem C10_sa_is_machine {s : Sys} (h : Reachable s) : s.sa = (SubActor.run SubActor.init s.processed).1 :=
+theorem C10_sa_is_machine {self : Nat} {s : Sys} (h : Reachable self s) : s.sa = (SubActor.run (SubActor.init self) s.processed).1 :=
   (flow_reachable h).saState
 
 /-- **Order: two FIFO hops compose.**
@@ -93,19 +94,19 @@ theorem C10_sa_is_machine {s : Sys} (h : Reachable s) : s.sa = (SubActor.run Sub
     is a subsequence — same order, no repetition — of the deliveries the subscription actor addressed
     to `r` (all of them while `r` lives; a gap is a dead letter, `C10_no_loss_no_dup`).
     Hence one publisher's messages reach one subscriber in publication order. -/
-theorem C10_order {s : Sys} (h : Reachable s) :
+theorem C10_order {self : Nat} {s : Sys} (h : Reachable self s) :
     (s.processed ++ s.saQ).filterMap localPubOf = s.published ∧
-    ∀ r, (arrived s r).Sublist (deliveriesTo r (allEffs s)) :=
+    ∀ r, (arrived s r).Sublist (deliveriesTo r (allEffs self s)) :=
   ⟨(flow_reachable h).pubs, (flow_reachable h).order⟩
 
 /-- per publisher -/
-theorem C10_order_per_publisher {s : Sys} (h : Reachable s) (p : Ref) :
+theorem C10_order_per_publisher {self : Nat} {s : Sys} (h : Reachable self s) (p : Ref) :
     ((s.processed ++ s.saQ).filterMap localPubOf).filter (fun x => x.1 = p) = s.published.filter (fun x => x.1 = p) := by
   rw [(C10_order h).1]
 
 /-- what `r`'s handler has seen so far, in order, is a subsequence of what was addressed to it -/
-theorem C10_handled_in_order {s : Sys} (h : Reachable s) (r : Ref) :
-    ((s.actors r).handled.map (·.2)).Sublist (deliveriesTo r (allEffs s)) :=
+theorem C10_handled_in_order {self : Nat} {s : Sys} (h : Reachable self s) (r : Ref) :
+    ((s.actors r).handled.map (·.2)).Sublist (deliveriesTo r (allEffs self s)) :=
   List.Sublist.trans (List.sublist_append_left _ _) ((C10_order h).2 r)
 
 /-- `Subscribe("")` panics before anything is sent: the system does not change -/
@@ -129,6 +130,39 @@ theorem C10_empty_topic_harmless_sys (s : Sys) (snd : Option Ref) (t : Topic) (p
   rw [b2, b3, b8, hnil]
   refine ⟨by split <;> simp [arrived], by split <;> simp [lost], rfl⟩
 
+/-- an effect of some turn of the machine run over `h` is an effect of the turn on some envelope after some prefix -/
+theorem mem_run_effs (s0 : SubActor) (h : List Envelope) (x : Eff) (hx : x ∈ (SubActor.run s0 h).2.flatten) :
+    ∃ h1 e h2, h = h1 ++ e :: h2 ∧ x ∈ ((SubActor.run s0 h1).1.step e).2 := by
+  induction h using snoc_induction with
+  | nil => simp [SubActor.run] at hx
+  | snoc h e ih =>
+    rw [run_append] at hx
+    simp only [SubActor.run, List.flatten_append, List.mem_append, List.flatten_cons, List.flatten_nil, List.append_nil] at hx
+    rcases hx with hx | hx
+    · obtain ⟨h1, e', h2, he, hmem⟩ := ih hx
+      exact ⟨h1, e', h2 ++ [e], by simp [he], hmem⟩
+    · exact ⟨h, e, [], by simp, hx⟩
+
+/-- **Nothing is ever handed to the link for the own node**: a publication reaches the local
+    subscribers through the local fan-out only (before the `fix:` commit the cluster's contact
+    provider made every node list itself and local subscribers got every encodable publication twice). -/
+theorem C10_no_self_link {self : Nat} {s : Sys} (h : Reachable self s) : ∀ x ∈ s.link, x.1 ≠ self := by
+  intro x hx hself
+  rw [(flow_reachable h).linkLog] at hx
+  simp only [List.mem_filterMap] at hx
+  obtain ⟨eff, heff, hlink⟩ := hx
+  obtain ⟨h1, e, h2, _, hmem⟩ := mem_run_effs _ _ eff heff
+  cases eff with
+  | tellRemote a t p pub =>
+    simp only [toLink, Option.some.injEq] at hlink
+    subst hlink
+    simp only at hself
+    subst hself
+    exact C10_no_self_broadcast _ h1 e t p pub hmem
+  | deliver _ _ _ => simp [toLink] at hlink
+  | replySub _ _ => simp [toLink] at hlink
+  | replyNil _ => simp [toLink] at hlink
+
 /-! ## two nodes -/
 
 /-- **Remote: exactly once, in order.** In the two-node model with links that carry the entries in
@@ -141,19 +175,20 @@ theorem C10_empty_topic_harmless_sys (s : Sys) (snd : Option Ref) (t : Topic) (p
     and every broadcast handled is fanned out exactly once to the then-current subscriptions of the
     topic with the original publisher as sender (`C10_remote_fanout_exact`). -/
 theorem C10_remote_once {n : Net} (h : NReachable n) :
-    n.n1.link = (allEffs n.n1).filterMap toLink ∧ n.n2.link = (allEffs n.n2).filterMap toLink ∧
+    n.n1.link = (allEffs 1 n.n1).filterMap toLink ∧ n.n2.link = (allEffs 2 n.n2).filterMap toLink ∧
     (n.n2.processed ++ n.n2.saQ).filter isBroadcast = ((n.n1.link.take n.sent1).filter (fun e => e.1 = 2)).map (·.2) ∧
     (n.n1.processed ++ n.n1.saQ).filter isBroadcast = ((n.n2.link.take n.sent2).filter (fun e => e.1 = 1)).map (·.2) := by
   have hi := netInv_reachable h
   exact ⟨(flow_reachable hi.r1).linkLog, (flow_reachable hi.r2).linkLog, hi.recv2, hi.recv1⟩
 
 /-- each node of the two-node model is a reachable single system: every theorem above applies to it -/
-theorem C10_remote_nodes_reachable {n : Net} (h : NReachable n) : Reachable n.n1 ∧ Reachable n.n2 :=
+theorem C10_remote_nodes_reachable {n : Net} (h : NReachable n) : Reachable 1 n.n1 ∧ Reachable 2 n.n2 :=
   ⟨(netInv_reachable h).r1, (netInv_reachable h).r2⟩
 
 /-! ## non-vacuity: a concrete run (subscribe twice, publish, restart in between, terminate) -/
 
 def rA : Ref := { node := 0, id := 10 }
+def rA1 : Ref := { node := 1, id := 10 }
 def rB : Ref := { node := 0, id := 11 }
 
 def demo : List Act :=
@@ -162,13 +197,13 @@ def demo : List Act :=
    .restart rA, .publish rB 1 { id := 8, enc := false }, .saStep, .saStep, .handle rB, .handle rA,
    .terminate rB, .saStep, .publish rA 1 { id := 9, enc := false }, .saStep]
 
-example : ((Sys.init.run demo).actors rA).handled = [(1, { sender := some rB, payload := 7 })] := by decide
-example : ((Sys.init.run demo).actors rB).handled =
+example : (((Sys.init 0).run demo).actors rA).handled = [(1, { sender := some rB, payload := 7 })] := by decide
+example : (((Sys.init 0).run demo).actors rB).handled =
     [(1, { sender := some rB, payload := 7 }), (1, { sender := some rB, payload := 8 })] := by decide
-example : (Sys.init.run demo).dead = [] ∧ (Sys.init.run demo).saQ = [] ∧ (Sys.init.run demo).sa.lookup 1 = [] := by decide
+example : ((Sys.init 0).run demo).dead = [] ∧ ((Sys.init 0).run demo).saQ = [] ∧ ((Sys.init 0).run demo).sa.lookup 1 = [] := by decide
 
-theorem demo_reachable : Reachable (Sys.init.run demo) := by
-  have step : ∀ (s : Sys) (a : Act), Reachable s → Allowed s a → Reachable (s.step a) :=
+theorem demo_reachable : Reachable 0 ((Sys.init 0).run demo) := by
+  have step : ∀ (s : Sys) (a : Act), Reachable 0 s → Allowed s a → Reachable 0 (s.step a) :=
     fun s a h ha => Reachable.step a h ha
   simp only [demo, Sys.run, List.foldl]
   repeat (first | exact Reachable.init | (apply step; rotate_left; exact trivial))
@@ -177,7 +212,8 @@ theorem demo_reachable : Reachable (Sys.init.run demo) := by
 def rC : Ref := { node := 2, id := 10 }
 def demoNet : List NAct :=
   [.at2 (.spawn rC), .at2 (.subscribeCall rC 1), .at2 .saStep, .at1 (.spawn rA),
-   .at1 (.inject { sender := none, msg := .statusChanged 2 false }), .at1 .saStep,
+   .at1 (.inject { sender := none, msg := .statusChanged 1 false }),
+   .at1 (.inject { sender := none, msg := .statusChanged 2 false }), .at1 .saStep, .at1 .saStep,
    .at1 (.publish rA 1 { id := 5, enc := true }), .at1 .saStep, .xfer12, .at2 .saStep, .at2 (.handle rC)]
 
 example : ((Net.init.run demoNet).n2.actors rC).handled = [(1, { sender := some rA, payload := 5 })] := by decide
